@@ -250,6 +250,11 @@ inline Json::Value genKillPlan(Rng& rng, const KillGenOpts& o) {
   KillWorldGen wg{rng, o};
   wg.build();
   Json::Value w(Json::objectValue);
+  // pids.current and cgroup.events are separate reads of a moving target: a
+  // populated cgroup may report 0 (or any other) pids.current
+  for (auto& c : wg.cgs)
+    if (rng.chance(0.08))
+      c["pids_current"] = (Json::Int64)rng.pick<int64_t>({0, 0, 1, 1000});
   w["cgroups"] = wg.cgs;
   w["comm"] = wg.comm;
   Json::Value proc = defaultProc(rng);
